@@ -269,12 +269,18 @@ def probe_programs(pt, seed):
 
     def xv_program():
         s = pt.ScratchVar(pt.TealType.bytes)
+        mv1 = pt.App.globalGetEx(pt.Int(0), pt.Bytes("k"))       # v2+
+        mv2 = pt.AccountParam.balance(pt.Txn.sender())          # v6+: compiling below that fails at this very node
         return pt.Seq(s.store(pt.Concat(pt.Bytes("0123456789abcdef"), pt.Txn.application_args[0])),
                       pt.Pop(pt.Substring(s.load(), pt.Int(2), pt.Int(10))), pt.Pop(pt.Extract(s.load(), pt.Int(1), pt.Int(3))),
                       pt.Pop(pt.Suffix(s.load(), pt.Int(4))), pt.Pop(pt.Substring(s.load(), pt.Int(0), pt.Len(s.load()))),
                       pt.Pop(pt.GetByte(s.load(), pt.Int(1))), pt.Pop(pt.Btoi(pt.Extract(s.load(), pt.Int(0), pt.Int(8)))),
-                      pt.Pop(pt.Itob(pt.Int(7))), pt.Int(1))
-    for order in ([4, 6], [6, 4], [2, 5, 8], [10, 3, 6]):
+                      pt.Pop(pt.Itob(pt.Int(7))),
+                      # operations with several results (their output slots are per object), available from different versions
+                      pt.Pop(pt.App.globalGetEx(pt.Int(0), pt.Bytes("k")).value()) if False else pt.Seq(mv1, pt.Pop(mv1.hasValue()), pt.Pop(mv1.value())),
+                      pt.Seq(mv2, pt.Assert(mv2.hasValue()), pt.Pop(mv2.value())),
+                      pt.Int(1))
+    for order in ([4, 6], [6, 4], [2, 5, 8], [10, 3, 6], [5, 6], [3, 5, 7]):
 
         def xv(order=order):
             seqr = dict(cross_version(xv_program, order))
@@ -284,6 +290,14 @@ def probe_programs(pt, seed):
                 outl.append("v%d:%s" % (v, "same" if fresh == seqr[v] else "DIFFERS(%s vs fresh %s)" % (seqr[v][:8], fresh[:8])))
             return ["same" if x.endswith("same") else x for x in outl] + ["same"]
         out.append(("cross_version_%s" % "_".join(map(str, order)), xv))
+    def assembled_kinds(v):
+        """Method selectors, base64 and hex literals under assembleConstants: their values depend on the literal's kind, not on
+        whether a literal with the same text (of another kind) was seen before in this process."""
+        prog = pt.Seq(pt.Pop(pt.MethodSignature("ping()void")), pt.Pop(pt.MethodSignature("add(uint64,uint64)uint64")), pt.Pop(pt.Bytes("base64", "YQ==")),
+                      pt.Pop(pt.Bytes("base16", "0x6162")), pt.Pop(pt.MethodSignature("ping()void")), pt.Pop(pt.Bytes("ping()void")), pt.Int(1))
+        return rep(lambda: pt.compileTeal(prog, pt.Mode.Application, version=v, assembleConstants=True))
+    for v in (6, 10):
+        out.append(("assembled_kinds_v%d" % v, (lambda v=v: assembled_kinds(v))))
     out.append(("template", lambda: pt.compileTeal(pt.Seq(pt.Pop(pt.Tmpl.Bytes("TMPL_K")), pt.Tmpl.Int("TMPL_N")), pt.Mode.Signature, version=6, assembleConstants=True)))
     return out
 
@@ -341,6 +355,12 @@ def do_activity(pt, act):
         elif kind == "templates":
             pt.compileTeal(pt.Seq(pt.Pop(pt.Tmpl.Bytes("TMPL_K")), pt.Pop(pt.Tmpl.Addr("TMPL_N")), pt.Tmpl.Int("TMPL_Z")), pt.Mode.Signature, version=6,
                            assembleConstants=rng.random() < .5)
+        elif kind == "assembled_literals":
+            # byte literals whose *text* equals texts that other programs use as literals of another kind
+            texts = ["ping()void", "add(uint64,uint64)uint64", "TMPL_K", "NoOp", "YQ==", "0x6162"]
+            rng.shuffle(texts)
+            pt.compileTeal(pt.Seq(*[pt.Pop(pt.Bytes(t)) for t in texts[:4]], *[pt.Pop(pt.Bytes(t)) for t in texts[:2]], pt.Int(1)), pt.Mode.Application, version=6,
+                           assembleConstants=True)
         elif kind == "many_slots":
             vs = [pt.ScratchVar(pt.TealType.uint64) for _ in range(rng.choice([10, 100, 257]))]
             pt.compileTeal(pt.Seq(*[v.store(pt.Int(1)) for v in vs], pt.Add(pt.Int(0), pt.Int(0), *[v.load() for v in vs])), pt.Mode.Application, version=6)
